@@ -251,11 +251,12 @@ func init() {
 			cstep("pool-havoc-chunked", map[string]int64{"lenset": 1, "poolhavoc": 1}, nil, "real chunked handler step (see C04), pooled headers arbitrary after release"),
 			{Pkg: "./zz_verif/orcah", Func: "ZZLockedConcurrent", Name: "disjoint-keys-set", Params: map[string]int64{"nk": 2, "disjoint": 1, "a.cmd": 0}, Sched: true, SchedKinds: "rt,lock,unlock", SchedSkipPkgs: "github.com/netflix/rend/metrics", Reach: []string{"both-done"},
 				Bounds: "two connections (L1L2 and L1L2 / L1L2Batch, no lock wrapper) on different keys: A sets key 0, B issues any of the 9 commands on key 1; every interleaving at backend calls"},
-			{Pkg: "./zz_verif/orcah", Func: "ZZLockedConcurrent", Name: "disjoint-keys-get", Params: map[string]int64{"nk": 2, "disjoint": 1, "a.cmd": 8}, Sched: true, SchedKinds: "rt,lock,unlock", SchedSkipPkgs: "github.com/netflix/rend/metrics", Reach: []string{"both-done"},
-				Bounds: "the same with A getting key 0"},
 		},
 		Thorough: func() []Job {
-			var js []Job
+			js := []Job{
+			{Pkg: "./zz_verif/orcah", Func: "ZZLockedConcurrent", Name: "disjoint-keys-get", Params: map[string]int64{"nk": 2, "disjoint": 1, "a.cmd": 8}, Sched: true, SchedKinds: "rt,lock,unlock", SchedSkipPkgs: "github.com/netflix/rend/metrics", Reach: []string{"both-done"},
+				Bounds: "the same with A getting key 0"},
+			}
 			for k := int64(1); k < 8; k++ {
 				js = append(js, Job{Pkg: "./zz_verif/orcah", Func: "ZZLockedConcurrent", Name: "disjoint-keys-a" + itoa(k), Params: map[string]int64{"nk": 2, "disjoint": 1, "a.cmd": k}, Sched: true, SchedKinds: "rt,lock,unlock", SchedSkipPkgs: "github.com/netflix/rend/metrics", Reach: []string{"both-done"}, Bounds: "disjoint keys, first connection's command fixed per job (add replace append prepend delete touch gat)"})
 			}
